@@ -30,14 +30,14 @@ def GroupCons (op : OpInst) (a f : SDir) (r e : List SDir) : Prop :=
   else ∀ d ∈ f :: r, emptyS op d
 
 /-- instance conditions for a whole format -/
-def ValidD (op : OpInst) : List Dir → Prop
+def ValidD (D : Defs) (op : OpInst) : List Dir → Prop
   | [] => True
-  | .s d :: ds => okInstAll op d ∧ ValidD op ds
+  | .s d :: ds => okInstAll D op d ∧ ValidD D op ds
   | .group a f r e :: ds =>
-    (∀ d ∈ f :: r, okInstAll op d) ∧ (∀ d ∈ e, okInstAll op d) ∧ GroupCons op a f r e ∧ ValidD op ds
+    (∀ d ∈ f :: r, okInstAll D op d) ∧ (∀ d ∈ e, okInstAll D op d) ∧ GroupCons op a f r e ∧ ValidD D op ds
 
 theorem present_print (D : Defs) (op : OpInst) (a : SDir) (hok : okFirst a = true)
-    (hinst : okInstAll op a) (hp : presentS op a = true) : printS D op a ≠ [] := by
+    (hinst : okInstAll D op a) (hp : presentS op a = true) : printS D op a ≠ [] := by
   obtain ⟨hi, ht⟩ := hinst
   cases a with
   | kw s => simp [printS]
@@ -88,7 +88,7 @@ theorem present_print (D : Defs) (op : OpInst) (a : SDir) (hok : okFirst a = tru
 /-- first element of a taken group: `parse_optional` returns True -/
 theorem parseOptS_present (D : Defs) (op : OpInst) (f : SDir) (rest : List Tok) (st : PState)
     (hfrag : inFragment f = true) (hok : okFirst f = true)
-    (hinst : okInst op f) (hf : FollowOK f rest) (hne : printS D op f ≠ []) :
+    (hinst : okInst D op f) (hf : FollowOK f rest) (hne : printS D op f ≠ []) :
     parseOptS D f (printS D op f ++ rest) st = some (true, replayS D op f st, rest) := by
   cases f with
   | kw s => simp [parseOptS, parseS, printS, replayS]
@@ -278,42 +278,35 @@ theorem mem_all {α : Type} {p : α → Bool} {l : List α} (h : l.all p = true)
 
 /-- first token of a printed format -/
 theorem clsHd_printD (D : Defs) (op : OpInst) (fmt : List Dir) (K : List Cls) (rest : List Tok)
-    (hfrag : fragD fmt = true) (hv : ValidD op fmt) (hK : clsHd rest ∈ K) :
+    (hv : ValidD D op fmt) (hK : clsHd rest ∈ K) :
     clsHd (printD D fmt op ++ rest) ∈ firstD fmt K := by
   induction fmt with
   | nil => simpa [printD, firstD] using hK
   | cons d ds ih =>
     cases d with
     | s d =>
-      simp only [fragD, Bool.and_eq_true] at hfrag
       obtain ⟨hv1, hv2⟩ := hv
-      have ih' := ih hfrag.2 hv2
+      have ih' := ih hv2
       simp only [printD, printDir, firstD, List.append_assoc]
       by_cases hp : printS D op d = []
-      · have hn := nullable_of_print_nil D op d hfrag.1 hv1.1 hp
+      · have hn := nullable_of_print_nil D op d hv1.1 hp
         simp only [hp, List.nil_append, hn, if_true]
         exact List.mem_append_right _ ih'
-      · exact List.mem_append_left _ (first_of_print D op d hfrag.1 _ hp)
+      · exact List.mem_append_left _ (first_of_print D op d _ hp)
     | group a f r e =>
-      simp only [fragD, Bool.and_eq_true] at hfrag
-      obtain ⟨⟨⟨hf1, hf2⟩, hf3⟩, hf4⟩ := hfrag
       obtain ⟨hv1, hv2, _, hv4⟩ := hv
-      have ih' := ih hf4 hv4
+      have ih' := ih hv4
       simp only [printD, printDir, firstD]
       by_cases hp : presentS op a = true
       · simp only [hp, if_true]
         apply List.mem_append_left
         have := clsHd_printSeq D op (f :: r) (firstD ds K) (printD D ds op ++ rest)
-          (fun x hx => by
-            rcases List.mem_cons.mp hx with h | h
-            · exact h ▸ hf1
-            · exact mem_all hf2 h)
           (fun x hx => (hv1 x hx).1) ih'
         simpa [printSeq, List.append_assoc] using this
       · simp only [hp, if_false, Bool.false_eq_true]
         apply List.mem_append_right
         have := clsHd_printSeq D op e (firstD ds K) (printD D ds op ++ rest)
-          (fun x hx => mem_all hf3 hx) (fun x hx => (hv2 x hx).1) ih'
+          (fun x hx => (hv2 x hx).1) ih'
         simpa [List.append_assoc] using this
 
 end Xdsl.DeclFormat
